@@ -146,6 +146,21 @@ func (e *MultipleExtendsError) Error() string {
 	return e.sprintf(`a template may have only one "extends" statement`)
 }
 
+// DuplicateBlockError describes a second definition of a block name in one template.
+type DuplicateBlockError struct {
+	baseError
+	name string
+}
+
+func (e *DuplicateBlockError) Error() string {
+	return e.sprintf(`the block "%s" has already been defined`, e.name)
+}
+
+// newDuplicateBlockError returns a new DuplicateBlockError for the given name token.
+func newDuplicateBlockError(name token) error {
+	return &DuplicateBlockError{newBaseError(name.Pos), name.value}
+}
+
 // newMultipleExtendsError returns a new MultipleExtendsError
 func newMultipleExtendsError(start Pos) error {
 	return &MultipleExtendsError{newBaseError(start)}
